@@ -58,6 +58,11 @@ func GenBook(r *vh.Rand, n int, maxConns int) []BOp {
 			lv = append(lv, live{p, next[p], serial})
 			serial++
 			next[p] += 2
+		case k == 4 && r.Chance(1, 2):
+			// an open that fails in the key exchange (all-zero ephemeral key)
+			p := 1 + r.Intn(3)
+			ops = append(ops, BOp{Op: "openzero", Peer: p, ID: next[p]})
+			next[p] += 2
 		case k < 7 && len(lv) > 0:
 			t := lv[r.Intn(len(lv))]
 			tag++
@@ -175,12 +180,26 @@ func GenTableHistory(r *vh.Rand, n int) []TOp {
 // and finally drained history: every peer numbers its streams 1,3,5,... on its own
 // connection, frames come from connected peers only and refer to live tunnels, the
 // downstream ids are the ones the transit really allocated.
-func GenTransitHistory(r *vh.Rand, n int, run *TransitRunner) (TransitScript, []AObs, []Tunnel) {
+func GenTransitHistory(r *vh.Rand, n int, run *TransitRunner, mesh bool) (TransitScript, []AObs, []Tunnel) {
 	sc := TransitScript{Me: TransitMe, Locals: []uint64{}, Events: nil}
 	var obs []AObs
 	var live []Tunnel
 	var ended []Tunnel
-	nextUp := map[int]uint64{1: 1, 2: 1}
+	// mesh: all four neighbours dialled the transit and each of them may be the
+	// ingress side of one tunnel and the exit side of another (same odd ids)
+	nextUp := map[int]uint64{1: 1, 2: 1, 3: 1, 4: 1}
+	dialerFor := func(p int) bool { return !mesh && p >= 3 }
+	pick := func() (int, int) {
+		if !mesh {
+			return 1 + r.Intn(2), 3 + r.Intn(2)
+		}
+		up := 1 + r.Intn(4)
+		down := 1 + r.Intn(3)
+		if down >= up {
+			down++
+		}
+		return up, down
+	}
 	connected := map[int]bool{}
 	failing := map[int]bool{}
 	do := func(ev Event) AObs {
@@ -190,6 +209,7 @@ func GenTransitHistory(r *vh.Rand, n int, run *TransitRunner) (TransitScript, []
 		return o
 	}
 	for _, ev := range TransitPrologue() {
+		ev.Dialer = dialerFor(ev.Peer)
 		do(ev)
 		connected[ev.Peer] = true
 	}
@@ -236,19 +256,20 @@ func GenTransitHistory(r *vh.Rand, n int, run *TransitRunner) (TransitScript, []
 			do(Event{Ev: "disconnect", Peer: p})
 			connected[p] = false
 			endPeer(p)
+			nextUp[p] = 1
 		}
 	}
 	for len(sc.Events) < n {
 		switch k := r.Intn(20); {
 		case k < 8:
-			up, down := 1+r.Intn(2), 3+r.Intn(2)
+			up, down := pick()
 			if !connected[up] {
-				do(Event{Ev: "connect", Peer: up, Dialer: false})
+				do(Event{Ev: "connect", Peer: up, Dialer: dialerFor(up)})
 				connected[up], failing[up] = true, false
 				break
 			}
 			if !connected[down] {
-				do(Event{Ev: "connect", Peer: down, Dialer: true})
+				do(Event{Ev: "connect", Peer: down, Dialer: dialerFor(down)})
 				connected[down], failing[down] = true, false
 				break
 			}
